@@ -22,7 +22,6 @@ import (
 	"pgregory.net/rapid"
 
 	"verifharness/ev"
-	"verifharness/tv"
 )
 
 func TestMain(m *testing.M) {
@@ -172,7 +171,7 @@ func apiWorks(c *tengo.Compiled, names []string) string {
 			msg = "Set of a name not defined at compile time returned no error"
 			return
 		}
-		if d := tv.Describe(c.Get("c07_not_defined_anywhere").Object()); d != "undefined" {
+		if d := describe(c.Get("c07_not_defined_anywhere").Object()); d != "undefined" {
 			msg = "Get of an unknown name returned " + d
 			return
 		}
@@ -187,7 +186,7 @@ func apiWorks(c *tengo.Compiled, names []string) string {
 				msg = fmt.Sprintf("Set(%q) failed: %v", n, err)
 				return
 			}
-			if d := tv.Describe(c.Get(n).Object()); d != fmt.Sprintf("int(%d)", 4200+i) {
+			if d := describe(c.Get(n).Object()); d != fmt.Sprintf("int(%d)", 4200+i) {
 				msg = fmt.Sprintf("Get(%q) after Set(%q, %d) returned %s", n, n, 4200+i, d)
 				return
 			}
@@ -305,22 +304,53 @@ func inside(p *program, pl plan, T int64, o *outcome, finished bool) bool {
 	return false
 }
 
+// freshBaseline measures p on two fresh objects. The own-result comparisons
+// need a program whose uncancelled behaviour is one fixed thing: programs
+// whose instruction count, error text or globals differ between two fresh
+// objects (Go map order reaching an error message, ...) are outside that.
+func freshBaseline(p *program) (base *baseline, o *outcome, a *tengo.Compiled, discard, fail string) {
+	a, err := compile(p)
+	if err != nil {
+		return nil, nil, nil, "does not compile", ""
+	}
+	base, o, msg := measure(a, p)
+	if msg != "" {
+		if o != nil && o.Hung {
+			return nil, o, a, "uncancelled run exceeds 10 s", ""
+		}
+		if isWatchdog(msg) {
+			ev.Note("watchdog expired on an uncancelled run of a fresh object")
+			return nil, o, a, "watchdog expiry without any cancellation", ""
+		}
+		return nil, o, a, "", "fresh object: " + msg
+	}
+	if strings.Contains(base.Globals, tooLarge) {
+		return nil, o, a, "globals too large to compare", ""
+	}
+	a2, err := compile(p)
+	if err != nil {
+		return nil, o, a, "does not compile", ""
+	}
+	b2, o2, msg := measure(a2, p)
+	if msg != "" {
+		if o2 != nil && o2.Hung {
+			return nil, o, a, "uncancelled run exceeds 10 s", ""
+		}
+		return nil, o, a, "", "fresh object: " + msg
+	}
+	if b2.T != base.T || b2.ErrText != base.ErrText || b2.Globals != base.Globals {
+		return nil, o, a, "not deterministic across fresh objects", ""
+	}
+	return base, o, a, "", ""
+}
+
 // runCase evaluates one (program, schedule) pair through every oracle clause.
 func runCase(pay payload, base *baseline) (v verdict) {
 	p := pay.Program
 	if !p.Infinite && base == nil {
-		a, err := compile(p)
-		if err != nil {
-			v.discard = "does not compile"
-			return
-		}
-		b, o, msg := measure(a, p)
-		if msg != "" {
-			if o != nil && o.Hung {
-				v.discard = "uncancelled run exceeds 10 s"
-				return
-			}
-			v.fail = "fresh object: " + msg
+		b, _, _, discard, fail := freshBaseline(p)
+		if discard != "" || fail != "" {
+			v.discard, v.fail = discard, fail
 			return
 		}
 		base = b
@@ -419,12 +449,17 @@ func runCase(pay payload, base *baseline) (v verdict) {
 	return
 }
 
+// isWatchdog: the failure is a watchdog expiry (every such message says so).
+func isWatchdog(msg string) bool {
+	return strings.Contains(msg, "did not return within") || strings.Contains(msg, "had not returned")
+}
+
 func evaluate(t ev.TB, test string, pay payload, base *baseline) {
 	v := runCase(pay, base)
-	if v.hung {
+	if v.hung || isWatchdog(v.fail) {
 		// a watchdog expiry is re-tried once before it is reported
 		v2 := runCase(pay, nil)
-		if !v2.hung {
+		if !v2.hung && !isWatchdog(v2.fail) {
 			ev.Note("watchdog expired once, not reproduced on retry")
 			v = v2
 		}
@@ -439,10 +474,15 @@ func evaluate(t ev.TB, test string, pay payload, base *baseline) {
 	}
 	key, _ := json.Marshal(pay)
 	ev.Case(string(key), v.nontrivial, v.classes...)
-	if v.sample != nil && ev.WantSample() {
+	if v.sample != nil && ev.WantSample() && (test != "TestShapes" || shapeSamples < 1) {
+		if test == "TestShapes" {
+			shapeSamples++
+		}
 		ev.Sample(v.sample)
 	}
 }
+
+var shapeSamples int
 
 // ---------- drawing schedules ----------
 
@@ -549,24 +589,16 @@ func prepare(t *rapid.T, test string, infinitePermille int) (*program, *baseline
 	if p.Infinite {
 		return p, nil, true
 	}
-	a, err := compile(p)
-	if err != nil {
-		if strings.HasPrefix(p.Kind, "gen") {
-			if os.Getenv("C07_DEBUG") != "" {
-				fmt.Fprintf(os.Stderr, "DOES NOT COMPILE: %v\n%s\n", err, p.Source)
-			}
-			ev.Discard("does not compile")
-			return nil, nil, false
-		}
-		t.Fatalf("hand-written shape does not compile: %v\n%s", err, p.Source)
+	base, o, a, discard, fail := freshBaseline(p)
+	if discard == "does not compile" && !strings.HasPrefix(p.Kind, "gen") {
+		t.Fatalf("hand-written shape does not compile:\n%s", p.Source)
 	}
-	base, o, msg := measure(a, p)
-	if msg != "" {
-		if o != nil && o.Hung {
-			ev.Discard("uncancelled run exceeds 10 s")
-			return nil, nil, false
-		}
-		ev.Fail(t, test, payload{Program: p, Plan: plan{Mode: "free", Ctx: "none", Instant: "none"}}, "fresh object: %s", msg)
+	if discard != "" {
+		ev.Discard(discard)
+		return nil, nil, false
+	}
+	if fail != "" {
+		ev.Fail(t, test, payload{Program: p, Plan: plan{Mode: "free", Ctx: "none", Instant: "none"}}, "%s", fail)
 	}
 	if f, _ := judge(p, plan{Mode: "free", Ctx: "none", Instant: "none"}, base, o, a); f != "" {
 		ev.Fail(t, test, payload{Program: p, Plan: plan{Mode: "free", Ctx: "none", Instant: "none"}}, "uncancelled run on a fresh object: %s", f)
@@ -645,7 +677,7 @@ type machine struct {
 func splitGlobals(c *tengo.Compiled) map[string]string {
 	out := map[string]string{}
 	for _, v := range c.GetAll() {
-		out[v.Name()] = tv.Describe(v.Object())
+		out[v.Name()] = describe(v.Object())
 	}
 	return out
 }
@@ -759,10 +791,11 @@ func (m *machine) apply(o op) string {
 		}
 		m.known[o.Name] = fmt.Sprintf("int(%d)", o.Val)
 	case "get":
-		var d string
-		if !guarded(func() { d = tv.Describe(m.c.Get(o.Name).Object()) }) {
+		var got tengo.Object
+		if !guarded(func() { got = m.c.Get(o.Name).Object() }) {
 			return "Get did not return within 10 s (lock still held?)" + src
 		}
+		d := describe(got)
 		if want, ok := m.known[o.Name]; ok && d != want {
 			return fmt.Sprintf("Get(%q) = %s, expected %s%s", o.Name, d, want, src)
 		}
@@ -796,7 +829,26 @@ func TestCancelCycles(t *testing.T) {
 		var ops []op
 		do := func(t *rapid.T, o op) {
 			ops = append(ops, o)
-			if msg := m.apply(o); msg != "" {
+			msg := m.apply(o)
+			if isWatchdog(msg) {
+				// a watchdog expiry is re-tried once (the whole sequence, on
+				// a fresh object) before it is reported
+				if m2, why := newMachine(p, base); why == "" {
+					again := ""
+					for _, x := range ops {
+						if again = m2.apply(x); again != "" {
+							break
+						}
+					}
+					if again == "" {
+						ev.Note("watchdog expired once, not reproduced on retry")
+						*m, msg = *m2, ""
+					} else if !isWatchdog(again) {
+						msg = again
+					}
+				}
+			}
+			if msg != "" {
 				ev.Fail(t, "TestCancelCycles", payload{Program: p, Ops: ops}, "after %d operations, %s: %s", len(ops), o.Op, msg)
 			}
 		}
@@ -865,30 +917,40 @@ func replayCycles(t ev.TB, pay payload) {
 	p := pay.Program
 	var base *baseline
 	if !p.Infinite {
-		a, err := compile(p)
-		if err != nil {
-			ev.Discard("does not compile")
+		b, _, _, discard, fail := freshBaseline(p)
+		if discard != "" {
+			ev.Discard(discard)
 			return
 		}
-		b, _, msg := measure(a, p)
-		if msg != "" {
-			ev.Fail(t, "TestCancelCycles", pay, "fresh object: %s", msg)
+		if fail != "" {
+			ev.Fail(t, "TestCancelCycles", pay, "%s", fail)
 			return
 		}
 		base = b
 	}
-	m, why := newMachine(p, base)
-	if why != "" {
-		ev.Discard(why)
-		return
-	}
-	for i, o := range pay.Ops {
-		if msg := m.apply(o); msg != "" {
-			ev.Fail(t, "TestCancelCycles", payload{Program: p, Ops: pay.Ops[:i+1]}, "after %d operations, %s: %s", i+1, o.Op, msg)
+	for attempt := 0; ; attempt++ {
+		m, why := newMachine(p, base)
+		if why != "" {
+			ev.Discard(why)
 			return
 		}
+		retry := false
+		for i, o := range pay.Ops {
+			if msg := m.apply(o); msg != "" {
+				if isWatchdog(msg) && attempt == 0 {
+					retry = true
+					break
+				}
+				ev.Fail(t, "TestCancelCycles", payload{Program: p, Ops: pay.Ops[:i+1]}, "after %d operations, %s: %s", i+1, o.Op, msg)
+				return
+			}
+		}
+		if !retry {
+			finishCycles(p, m, pay.Ops)
+			return
+		}
+		ev.Note("watchdog expired once; sequence re-tried")
 	}
-	finishCycles(p, m, pay.Ops)
 }
 
 // ---------- plain: every hand-written shape x every kind of instant ----------
